@@ -163,7 +163,20 @@ def check_sign(built, hooks, shape, timeout):
     try:
         rec, ins, outs = _run(built, hooks, drv)
     except PanicReached as e:
-        return [ob.unknown("panic reached in the stubbed model: %s" % e.callee[:80])]
+        # the lengths are concrete: a panic on this path is a panic for inputs of this shape; reproduce natively (child process)
+        from .lhelp import native_crashes
+        r_ = rng("signpanic", drv)
+        d_ = built.drivers[drv]
+        inp = {}
+        for name_, kind_, eb_, cnt_ in d_.params:
+            if kind_ == "in":
+                inp[name_] = [r_.getrandbits(8 * eb_) for _ in range(cnt_)]
+        crashed, err = native_crashes(built, drv, inp)
+        if crashed:
+            return [ob.fail({"key": "%s.sign.panic" % "ed448", "inputs": {k_: [hex(x) for x in v_][:8] for k_, v_ in inp.items()}, "shape": list(shape),
+                             "panic": {"callee": e.callee, "where": e.where}, "native_stderr": err[-300:],
+                             "found_by": "panic reached on the single path of this shape; reproduced natively"}, "replay", time.time() - t0, 0)]
+        return [ob.unknown("panic reached in the stubbed model: %s (not reproduced natively)" % e.callee[:80])]
     except ExecError as e:
         return [ob.unknown("executor: %s" % str(e)[:300])]
     s, h, pke, ctx, msg = ins["s"], ins["h"], ins["pke"], ins.get("ctx", []), ins["msg"]
@@ -351,6 +364,6 @@ def _confirm(ob, built, shape, problems, secs, nq):
 
 # message lengths around the SHAKE256 rate (136): the nonce hash absorbs 10 + ctx + 57 + msg bytes, the
 # challenge hash 10 + ctx + 114 + msg bytes
-QUICK = [("raw", 0, 0), ("raw", 0, 11), ("raw", 0, 12), ("raw", 0, 69), ("ctx", 3, 8), ("ctx", 0, 68), ("ph", 2, 64)]
+QUICK = [("raw", 0, 0), ("raw", 0, 11), ("raw", 0, 12), ("raw", 0, 69), ("ctx", 3, 8), ("ctx", 0, 68), ("ph", 2, 64), ("ctx", 255, 1), ("ph", 255, 64)]
 THOROUGH = QUICK + [("raw", 0, n) for n in (1, 13, 16, 68, 70, 136, 147, 148, 205, 300)] + \
-    [("ctx", c, 5) for c in (1, 32, 255)] + [("ph", 0, 64), ("ph", 255, 64)]
+    [("ctx", c, 5) for c in (1, 32, 254)] + [("ph", 0, 64), ("ph", 254, 64)]
